@@ -277,11 +277,25 @@ def fastOfRuns (R : List (Nat × Nat)) (C : Bytes) : Option (List (Int × Int ×
     | none => none
     | some (ys, _) => some ((xs.zip (ys.zip (expand R))).map (fun t => (t.1, t.2.1, t.2.2 &&& 1)))
 
+theorem encRuns_le_twice : ∀ (R : List (Nat × Nat)), (∀ r ∈ R, runOk r) → (encRuns R).length ≤ 2 * counts R
+  | [], _ => by simp [encRuns, counts]
+  | (f, n) :: rs, hok => by
+    have ih := encRuns_le_twice rs (fun r hr => hok r (List.mem_cons_of_mem _ hr))
+    have hr := hok (f, n) (List.mem_cons_self ..)
+    rw [encRuns_cons]
+    simp only [counts, List.map_cons, List.sum_cons, List.length_append] at ih ⊢
+    unfold runOk at hr
+    unfold encRun
+    simp only at hr ⊢
+    split at hr <;> simp_all <;> omega
+
+/-- (read-fonts after `fix:` d12a1b2: the flag window is `2 * num_points` bytes, which always holds the flag runs) -/
 theorem fast_of_runs (v : Glyf.SimpleView) (last : Nat) (R : List (Nat × Nat)) (C extra : Bytes)
     (hlast : v.endPts.getLast? = some last) (hgd : v.glyphData = encRuns R ++ (C ++ extra))
     (hok : ∀ r ∈ R, runOk r) (hcnt : counts R = last + 1)
-    (hC : C.length = xTot R + yTot R) (hfl : (encRuns R).length ≤ last + 1) :
+    (hC : C.length = xTot R + yTot R) :
     v.readPointsFast = fastOfRuns R C := by
+  have hfl : (encRuns R).length ≤ 2 * (last + 1) := by rw [← hcnt]; exact encRuns_le_twice R hok
   unfold Glyf.SimpleView.readPointsFast Glyf.SimpleView.numPoints
   rw [hlast]
   simp only
@@ -289,15 +303,15 @@ theorem fast_of_runs (v : Glyf.SimpleView) (last : Nat) (R : List (Nat × Nat)) 
     intro h; subst h; simp [counts] at hcnt
   have hn0 : ¬ (last + 1 = 0) := by omega
   simp only [hn0, if_false]
-  have hwin : v.glyphData.take (min (last + 1) v.glyphData.length) =
-      encRuns R ++ (C ++ extra).take (min (last + 1) v.glyphData.length - (encRuns R).length) := by
+  have hwin : v.glyphData.take (min (2 * (last + 1)) v.glyphData.length) =
+      encRuns R ++ (C ++ extra).take (min (2 * (last + 1)) v.glyphData.length - (encRuns R).length) := by
     rw [hgd, List.take_append]
-    have : (encRuns R).take (min (last + 1) (encRuns R ++ (C ++ extra)).length) = encRuns R := by
+    have : (encRuns R).take (min (2 * (last + 1)) (encRuns R ++ (C ++ extra)).length) = encRuns R := by
       apply List.take_of_length_le
       simp; omega
     rw [this]
   rw [hwin, ← hcnt, fastFlags_runs R _ hok hne]
-  simp only [expand_length, Nat.sub_self, List.replicate_zero, List.append_nil]
+  simp only [expand_length, ne_eq, not_true_eq_false, if_false]
   have hd : v.glyphData.drop (encRuns R).length = C ++ extra := by rw [hgd]; simp
   rw [hd]
   obtain ⟨lx, hx1, hx2⟩ := fastCoords_enough Glyf.X_SHORT Glyf.X_SAME (expand R) C extra 0
